@@ -278,6 +278,7 @@ def replay(variant, history):
 
     model = Model(variant)
     mesh = cb.Mesh()
+    mesh.add_geometry(GEOMETRY)
     ops = make_ops(model.pts, model.patches, model.proj)
     if model.late:
         for i in model.added:
@@ -329,6 +330,7 @@ def reference_text(variant, history_upto):
         model.apply(ev)
     live = [i for i in model.added if i not in model.deleted]
     mesh = cb.Mesh()
+    mesh.add_geometry(GEOMETRY)
     ops = make_ops([model.pts[i] for i in live], [model.patches[i] for i in live], [model.proj[i] for i in live])
     for op in ops:
         mesh.add(op)
@@ -347,6 +349,13 @@ def reference_text(variant, history_upto):
     return open(p).read()
 
 
+# the surfaces the models project to, declared through the mesh (not re-supplied by any entity)
+GEOMETRY = {
+    "terrain": ["type searchablePlane", "planeType pointAndNormal", "point (0 0 0)", "normal (0 0 1)"],
+    "floor": ["type searchableSphere", "centre (0 0 -50)", "radius 50"],
+}
+
+
 def content(text):
     d = foamdict.parse(text)
     boundary = {p["name"]: (p["type"], tuple(p["settings"]), tuple(sorted(tuple(q) for q in p["faces"]))) for p in d["boundary"]}
@@ -359,6 +368,7 @@ def content(text):
         "default": d["defaultPatch"],
         "merge": d["mergePatchPairs"],
         "settings": d["settings"],
+        "geometry": repr(sorted(d["geometry"].items())),
     }
 
 
